@@ -40,13 +40,14 @@ class PointTopologyFromEdgesSubarray(PointTopology, MeshSubarray):
                 itself at the start.
 
         """
-        nodes = sorted(
-            set(
-                node_connectivity[np.where(node_connectivity == node)[0]]
-                .flatten()
-                .tolist()
-            )
-        )
+        edges = node_connectivity[np.where(node_connectivity == node)[0]]
+        if masked:
+            # Ignore missing values, as for faces
+            edges = edges.compressed()
+        else:
+            edges = edges.flatten()
+
+        nodes = sorted(set(edges.tolist()))
 
         # Move 'node' to the front of the list
         if node in nodes:
